@@ -346,7 +346,11 @@ func genJournal(r *rng, o genOpts) Journal {
 			}
 		}
 	}
-	descs := []string{"Salary", "Rent", "Groceries", "Transfer", "Buy shares", "Dividend", "Fees", "Währung", "Misc"}
+	// descriptions on both sides of the texts knut generates itself ("Adjust value of ...", "Closing ..."): transactions
+	// of a day are ordered by description in several places (seeded change C16b-merge-drops-late-adjustments lost the
+	// generated transactions that sort after the day's last user transaction; every description used to sort after them)
+	descs := []string{"Salary", "Rent", "Groceries", "Transfer", "Buy shares", "Dividend", "Fees", "Währung", "Misc",
+		"AAPL dividend", "1st instalment", "ATM", "Adjust", "Account fee", "a lower-case start", "Zoo"}
 	accrualAcc := ""
 	for _, a := range accounts {
 		if strings.HasPrefix(a, "Assets:") {
